@@ -16,7 +16,7 @@ ASSUMPTIONS = ["real OS timing of pool workers is not controlled; Pool.map is or
 REQUIRED_CLASSES = {"all": ["n_cpu>len", "n_cpu==len", "chunksize-does-not-divide", "virtual-schedule", "compression>1", "max_returns-truncates", "mode-hamming", "mode-callable", "long-sequences>=127", "all-sequences-of-one-length"]}
 MIN_OUTCOMES = 10
 
-MODES = ("default", "hamming", "callable")
+MODES = ("default", "hamming", "callable", "callable-half", "callable-rapidfuzz")
 MR_MODES = MODES + ("callable-lendiff",)     # max_returns also with a custom distance that does not rank candidates like Levenshtein
 _BASE = ["AC", "A", "CA", "AA", "ACD", "C", "CAD", "AAC", "", "ACC", "DA", "AD", "CC", "AC", "ADC", "D", "CD"]
 SIZES = (1, 2, 3, 4, 5, 6, 7, 8, 9, 11, 13, 16, 17)
@@ -30,6 +30,10 @@ def lendiff(a, b):
     return abs(len(a) - len(b))
 
 
+def half_lev(a, b):
+    return ref_lev(a, b) / 2
+
+
 def mode_kw(mode):
     if mode == "default":
         return {}
@@ -37,6 +41,12 @@ def mode_kw(mode):
         return dict(custom_distance="hamming")
     if mode == "callable-lendiff":
         return dict(custom_distance=lendiff)
+    if mode == "callable-half":
+        # smaller than the length difference of the pair; radius below max_edits
+        return dict(custom_distance=half_lev, max_custom_distance=1.0)
+    if mode == "callable-rapidfuzz":
+        from rapidfuzz.distance.Levenshtein import distance
+        return dict(custom_distance=distance, max_custom_distance=1)
     return dict(custom_distance=lendiff_lev, max_custom_distance=2.0)
 
 
@@ -48,6 +58,10 @@ def expected(seqs, k, mode):
         return base
     if mode == "callable-lendiff":
         return {(i, j, lendiff(seqs[i], seqs[j])) for i, j, d in base}
+    if mode == "callable-half":
+        return {(i, j, d / 2) for i, j, d in base if d / 2 <= 1.0}
+    if mode == "callable-rapidfuzz":
+        return {(i, j, d) for i, j, d in base if d <= 1}
     return {(i, j, lendiff_lev(seqs[i], seqs[j])) for i, j, d in base if lendiff_lev(seqs[i], seqs[j]) <= 2.0}
 
 
@@ -125,7 +139,9 @@ def check_case(case, acc):
             acc.cls("n_cpu==len")
         if ncpu > 1 and n >= ncpu and n % max(1, n // ncpu) != 0:
             acc.cls("chunksize-does-not-divide")
-        acc.cls("mode-" + mode)
+        acc.cls("mode-" + mode.split("-")[0])
+        if mode in ("callable-half", "callable-rapidfuzz"):
+            k = 2
         exp = expected(seqs, k, mode)
         res = _kd(acc, seqs, k, mode, n_cpu=ncpu)
         bad = diagnose(res, exp)
